@@ -188,10 +188,200 @@ def verify_infer_type_leaves(run):
                    "Constant/Linear/Function -> TakagiSugeno; monotonic -> Tsukamoto; else Automatic", fn=fq, level="B", meta={"replay": RP}))
 
 
+# ------------------------------------------------------------------------------------------------ Aggregated.grouped_terms / activation_degree
+def verify_grouped_terms(run):
+    """the grouping loop against the recursive reading of the statement: groups keyed by term NAME in first-occurrence order; the degree of a
+    group is the left fold of the aggregation operator (UnboundedSum when none is set) over the cleaned degrees of its members; every group is
+    a FRESH Activated (term of the first member, no implication), so the fuzzy output itself is not written"""
+    from pyvc.heap import Str, SeqStr, StrV, Act
+    src = run.src
+    fq = "term.Aggregated.grouped_terms"
+    fn = src.func("term", "Aggregated.grouped_terms")
+    run.under_contract("term", "Aggregated.grouped_terms", fn)
+    sc = W.schema(src)
+    H0 = init_heap(sc)
+    self_ = z3.Const("self", Ref)
+    T = H0["Aggregated.terms"][self_]
+    L = z3.Length(T)
+    aggr0 = H0["Aggregated.aggregation"][self_]
+    UNB = z3.Const("UnboundedSum()", Ref)
+    aggr = z3.If(aggr0 != NONE, aggr0, UNB)
+    NAME = H0["Term.name"]
+    PresArr, ValArr = z3.ArraySort(Str, z3.BoolSort()), z3.ArraySort(Str, Act)
+    seen = z3.Function("seen", z3.IntSort(), PresArr)        # ghost: the names among the first k activations
+    gval = z3.Function("group_of", z3.IntSort(), ValArr)     # ghost: name -> aggregated activation after k activations
+    order = z3.Function("group_order", z3.IntSort(), SeqStr)
+    nm = lambda k: NAME[Act.a_term(T[k])]
+
+    def unfold(k):
+        a, n_ = T[k], nm(k)
+        old = gval(k)[n_]
+        folded = W.compute_fn(aggr, Act.a_degree(old), Act.a_degree(a))
+        new = z3.If(seen(k)[n_], Act.mk_act(Act.a_term(old), x2xr(W.clean(xr2x(folded))), Act.a_impl(old)), Act.mk_act(Act.a_term(a), x2xr(W.clean(xr2x(Act.a_degree(a)))), NONE))
+        return [seen(k + 1) == z3.Store(seen(k), n_, True), gval(k + 1) == z3.Store(gval(k), n_, new),
+                order(k + 1) == z3.If(seen(k)[n_], order(k), z3.Concat(order(k), z3.Unit(n_))), canon(folded), canon(Act.a_degree(a)), canon(Act.a_degree(old)),
+                Act.a_term(a) != NONE]          # A-WF: an activation in a fuzzy output has a term (Consequent.modify only appends such)
+
+    class DictA:
+        def __init__(s, pres, val, keys):
+            s.pres, s.val, s.keys = pres, val, keys
+
+    class EntryV:
+        def __init__(s, dname, key):
+            s.dname, s.key = dname, key
+
+    class UnbCtor(Contract):
+        def call(s, ex, p, recv, args, kwargs, node):
+            p.pc += [UNB != NONE]
+            return RefV(UNB, "SNorm")
+
+    class GroupExec(HeapExec):
+        def stmt(s, p, n):
+            if isinstance(n, ast.AnnAssign) and isinstance(n.target, ast.Name) and isinstance(n.value, ast.Dict) and not n.value.keys:
+                p.env[n.target.id] = DictA(z3.K(Str, z3.BoolVal(False)), gval(0), z3.Empty(SeqStr))
+                return [(p, None)]
+            return super().stmt(p, n)
+
+        def contains(s, p, item, coll, e):
+            if isinstance(coll, DictA):
+                return coll.pres[s.unwrap("str", item)]
+            return super().contains(p, item, coll, e)
+
+        def ev_Subscript(s, p, e):
+            base = s.ev(p, e.value)
+            if isinstance(base, DictA) and isinstance(e.value, ast.Name):
+                k = s.unwrap("str", s.ev(p, e.slice))
+                s.oblige(f"safety/line{e.lineno - s.fn_line}:key present in the dict (no KeyError)", p, base.pres[k])
+                return EntryV(e.value.id, k)
+            return super().ev_Subscript(p, e)
+
+        def subscript_store(s, p, t, v):
+            if isinstance(t.value, ast.Name) and isinstance(p.env.get(t.value.id), DictA) and isinstance(v, ActV):
+                d = p.env[t.value.id]
+                k = s.unwrap("str", s.ev(p, t.slice))
+                p.env[t.value.id] = DictA(z3.Store(d.pres, k, True), z3.Store(d.val, k, v.a), z3.If(d.pres[k], d.keys, z3.Concat(d.keys, z3.Unit(k))))
+                return
+            return super().subscript_store(p, t, v)
+
+        def attr_of(s, p, base, attr, node):
+            if isinstance(base, EntryV):
+                d = p.env[base.dname]
+                return super().attr_of(p, ActV(d.val[base.key]), attr, node)
+            return super().attr_of(p, base, attr, node)
+
+        def assign(s, p, t, v):
+            if isinstance(t, ast.Attribute) and isinstance(t.value, ast.Name) and isinstance(p.env.get(t.value.id), EntryV) and t.attr == "degree":
+                ent = p.env[t.value.id]
+                d = p.env[ent.dname]
+                old = d.val[ent.key]
+                # Activated.degree setter: stores the cleaned value (verified against the value model in C07)
+                new = Act.mk_act(Act.a_term(old), x2xr(W.clean(s.num(v, t).x)), Act.a_impl(old))
+                p.env[ent.dname] = DictA(d.pres, z3.Store(d.val, ent.key, new), d.keys)
+                return
+            return super().assign(p, t, v)
+
+        def havoc_value(s, v, hint):
+            if isinstance(v, DictA):
+                return DictA(z3.FreshConst(PresArr, hint + ".present"), z3.FreshConst(ValArr, hint + ".value"), z3.FreshConst(SeqStr, hint + ".keys"))
+            if isinstance(v, EntryV):
+                return v
+            return super().havoc_value(v, hint)
+
+        def assigned_names(s, body):
+            out = super().assigned_names(body)
+            for st in body:
+                for x in ast.walk(st):
+                    if isinstance(x, ast.Assign) and isinstance(x.targets[0], ast.Subscript) and isinstance(x.targets[0].value, ast.Name):
+                        out.add(x.targets[0].value.id)
+                    if isinstance(x, ast.Assign) and isinstance(x.targets[0], ast.Attribute) and isinstance(x.targets[0].value, ast.Name) and x.targets[0].attr == "degree":
+                        out.add("groups")          # the entry is an alias into the dict
+            return out
+
+        def ev_BoolOp(s, p, e):
+            if isinstance(e.op, ast.Or) and ast.unparse(e) == "self.aggregation or UnboundedSum()":
+                return RefV(aggr, "SNorm")
+            return super().ev_BoolOp(p, e)
+
+    def inv(ex_, p, k, seq):
+        g = p.env.get("groups")
+        if not isinstance(g, DictA):
+            return z3.BoolVal(False)
+        return z3.And(g.pres == seen(k), g.val == gval(k), g.keys == order(k))
+
+    contracts = {"Activated": W.ActivatedCtor(), "UnboundedSum": UnbCtor()}
+    ex = GroupExec(src, "term", sc, contracts=contracts, interfaces=W.INTERFACES, inline=set(),
+                   loops={0: LoopSpec(inv, facts=lambda ex_, p, k, seq: unfold(k), name="loop0.activations", modifies=set())}, fnname=fq)
+    pre = [self_ != NONE, UNB != NONE, seen(0) == z3.K(Str, z3.BoolVal(False)), order(0) == z3.Empty(SeqStr)]
+    outs = ex.run_fn(fn, HPath({"self": RefV(self_, "Aggregated")}, pre, H0))
+    emit(run, ex, fq, [], RP)
+    for i, (kind, val, q) in enumerate(outs):
+        tag = f"[path{i}]"
+        if kind == "raise":
+            run.add(Obl(f"{fq}/raises.none{tag}", q.pc, z3.BoolVal(False), fn=fq, meta={"replay": RP})); continue
+        ok = isinstance(val, DictA)
+        goal = z3.And(val.pres == seen(L), val.val == gval(L), val.keys == order(L)) if ok else z3.BoolVal(False)
+        run.add(Obl(f"{fq}/ensures.groups_by_name_first_occurrence_order_fold_of_aggregation{tag}", q.pc, goal, fn=fq, meta={"replay": RP}))
+        run.add(Obl(f"{fq}/frame{tag}", q.pc, frame_goal(q, H0), fn=fq, meta={"replay": RP}))
+    run.add(static(f"{fq}/modifies", not ex.writes, f"heap fields written: {sorted(ex.writes)} (the fuzzy output is not mutated: every group is a fresh Activated)", fn=fq, meta={"replay": RP}))
+    # ---- Aggregated.activation_degree(term): the degree of the group named like the term, 0.0 when there is none (over the contract above)
+    fq2 = "term.Aggregated.activation_degree"
+    fn2 = src.func("term", "Aggregated.activation_degree")
+    run.under_contract("term", "Aggregated.activation_degree", fn2)
+    term = z3.Const("term", Ref)
+
+    class MaybeV:
+        def __init__(s, present, act):
+            s.present, s.act = present, act
+
+    class GroupedContract(Contract):
+        def call(s, ex_, p, recv, args, kwargs, node):
+            return DictA(seen(L), gval(L), order(L))
+
+    class ADExec(GroupExec):
+        def method_call(s, p, recv, meth, args, kwargs, node):
+            if isinstance(recv, DictA) and meth == "get" and len(args) == 1:
+                k = s.unwrap("str", args[0])
+                return MaybeV(recv.pres[k], recv.val[k])
+            return super().method_call(p, recv, meth, args, kwargs, node)
+
+        def truth(s, v, node, p=None):
+            if isinstance(v, MaybeV):
+                return v.present
+            return super().truth(v, node, p)
+
+        def attr_of(s, p, base, attr, node):
+            if isinstance(base, MaybeV):
+                s.oblige(f"safety/line{node.lineno - s.fn_line}:attribute `{attr}` of None", p, base.present)
+                return super().attr_of(p, ActV(base.act), attr, node)
+            return super().attr_of(p, base, attr, node)
+
+        def ev_IfExp(s, p, e):
+            c = s.truth(s.ev(p, e.test), e, p)
+            q = p.fork(); q.pc.append(c)
+            a = s.ev(q, e.body)
+            for nm_, pc_, g_, m_ in s.obls[-1:]:
+                pass
+            b = s.ev(p, e.orelse)
+            return s.merge(c, a, b, e)
+    ex2 = ADExec(src, "term", sc, contracts={"Aggregated.grouped_terms": GroupedContract()}, interfaces=W.INTERFACES, inline=set(), loops={}, fnname=fq2)
+    outs2 = ex2.run_fn(fn2, HPath({"self": RefV(self_, "Aggregated"), "term": RefV(term, "Term")}, [self_ != NONE, term != NONE], H0))
+    emit(run, ex2, fq2, [], RP)
+    key = NAME[term]
+    for i, (kind, val, q) in enumerate(outs2):
+        tag = f"[path{i}]"
+        if kind == "raise":
+            run.add(Obl(f"{fq2}/raises.none{tag}", q.pc, z3.BoolVal(False), fn=fq2, meta={"replay": RP})); continue
+        want = z3.If(seen(L)[key], Act.a_degree(gval(L)[key]), x2xr(xr.const(0.0)))
+        run.add(Obl(f"{fq2}/ensures.degree_of_the_group_named_like_the_term_or_zero{tag}", q.pc + [canon(Act.a_degree(gval(L)[key]))], x2xr(ex2.num(val).x) == want, fn=fq2, meta={"replay": RP}))
+    run.add(static(f"{fq2}/modifies", not ex2.writes, f"heap fields written: {sorted(ex2.writes)}", fn=fq2))
+    # UnboundedSum().compute(a, b) == a + b is proved in C04 (`norm.UnboundedSum.compute/ensures.formula`); here the operator is abstract
+
+
 def build(run):
-    run.assume("A-REAL", "A-NP", "A-PY", "A-MSG", "A-LISTVAL", "A-ACTVAL", "A-GROUPED")
+    run.assume("A-REAL", "A-NP", "A-PY", "A-MSG", "A-LISTVAL", "A-ACTVAL", "A-WF")
     plan = [(f"defuzzifier.{c}.defuzzify", (lambda c: (lambda r: verify_defuzzify(r, c)))(c)) for c in ("WeightedAverage", "WeightedSum")]
-    plan += [("term.tsukamoto_at_zero", verify_tsukamoto_at_zero), ("defuzzifier.WeightedDefuzzifier.infer_type", verify_infer_type_leaves)]
+    plan += [("term.tsukamoto_at_zero", verify_tsukamoto_at_zero), ("defuzzifier.WeightedDefuzzifier.infer_type", verify_infer_type_leaves),
+             ("term.Aggregated.grouped_terms", verify_grouped_terms)]
     for fq, f in plan:
         try:
             f(run)
@@ -199,8 +389,6 @@ def build(run):
             run.add(undecided(f"{fq}/subset", f"outside the verified subset: {ex_}", fn=fq, meta={"replay": RP}))
         except NotFound as ex_:
             run.add(static(f"{fq}/exists", False, f"function under contract not found: {ex_}", fn=fq))
-    for q_ in ("Aggregated.grouped_terms", "Aggregated.activation_degree"):
-        run.under_contract("term", q_, run.src.func("term", q_))
     budget = 300 if run.tier == "quick" else 6000
     run.bounded("defuzzifier.Weighted*/grouped_weighted.runtime", W_N, "replay_weighted", [dict(seed=run.seed, budget=budget)],
                 bound=f"{budget} random fuzzy outputs of 0-6 activations over 1-4 Constant/Linear/Function, monotonic or non-monotonic terms with repetitions x every aggregation operator or none x "
